@@ -136,7 +136,525 @@ Record SInv (c : @scfg A) : Prop := {
 Lemma SInv_prefix c o : SInv c -> prefix (lview o (sc_rlog c)) (lx (sc_rlog c) o).
 Proof.
   intros I. destruct (sc_obs c o) as [os|] eqn:E.
-  - destruct (sinv_some c I o os E) as [_ [X' [-> [Hok _]]]]. apply prefix_app_r. eapply obs_ok_prefix. exact Hok.
+  - destruct (sinv_some c I o os E) as [_ [X' [-> [Hok _]]]]. apply prefix_app_r. eapply (obs_ok_prefix react). exact Hok.
   - destruct (sinv_none c I o E) as (_ & -> & _). apply prefix_nil.
 Qed.
+Lemma sinv_some_l s m k l o os :
+  SInv (SCfg s m k l) -> m o = Some os ->
+  subbed o (lops l) = true /\
+  exists X', lx l o = X' ++ spend o k /\
+             obs_ok (rg_live (lg l)) (r_observers s) (lview o l) (sinflight o k) os o X' /\
+             pend_ok os (spend o k).
+Proof. intros I Hm. exact (sinv_some _ I o os Hm). Qed.
+
+Lemma sinv_none_l s m k l o :
+  SInv (SCfg s m k l) -> m o = None ->
+  subbed o (lops l) = false /\ lview o l = [] /\ sinflight o k = [] /\ spend o k = [].
+Proof. intros I Hm. exact (sinv_none _ I o Hm). Qed.
+
+Lemma sinv_st_l s m k l : SInv (SCfg s m k l) -> st_agree s (lg l).
+Proof. intros I. exact (sinv_st _ I). Qed.
+
+(* ---- an operation that does not deliver ---- *)
+Lemma sinv_op_generic top p s m k l s' (m' : @romap A) k' (extra : list (@revent A)) :
+  SInv (SCfg s m (SIOp top p :: k) l) ->
+  (extra = [] \/ exists e, extra = [RERaised e]) ->
+  st_agree s' (rg_step (lg l) p) ->
+  NoDup (r_observers s') ->
+  (forall o, In o (r_observers s') -> m' o <> None) ->
+  (forall o, m' o = None -> m o = None /\ is_sub o p = false /\ sinflight o k' = [] /\ spend o k' = []) ->
+  (forall o os', m' o = Some os' ->
+     (exists os, m o = Some os /\ exists X',
+        lx l o ++ rnote (lg l) p = X' ++ spend o k' /\
+        obs_ok (rg_live (rg_step (lg l) p)) (r_observers s') (lview o l) (sinflight o k') os' o X' /\
+        pend_ok os' (spend o k')) \/
+     (m o = None /\ is_sub o p = true /\ exists X',
+        rgreet b w (lg l) = X' ++ spend o k' /\
+        obs_ok (rg_live (rg_step (lg l) p)) (r_observers s') (lview o l) (sinflight o k') os' o X' /\
+        pend_ok os' (spend o k'))) ->
+  sclean k' ->
+  (rg_live (rg_step (lg l) p) = true -> forall o, spend o k' = []) ->
+  SInv (SCfg s' m' k' (extra ++ REOp p :: l)).
+Proof.
+  intros I Hex Hst Hnd Hdom Hnone Hsome Hclean Hnp.
+  assert (Hops : lops (extra ++ REOp p :: l) = lops l ++ [p]).
+  { destruct Hex as [->|[e ->]]; cbn [app]; [apply lops_op|rewrite lops_raised; apply lops_op]. }
+  assert (Hview : forall o, lview o (extra ++ REOp p :: l) = lview o l).
+  { intros o. destruct Hex as [->|[e ->]]; cbn [app]; [apply lview_op|rewrite lview_raised; apply lview_op]. }
+  assert (Hlg : lg (extra ++ REOp p :: l) = rg_step (lg l) p).
+  { unfold lg. rewrite Hops. apply rg_run_snoc. }
+  assert (Hx : forall o, lx (extra ++ REOp p :: l) o =
+                         lx l o ++ (if subbed o (lops l) then rnote (lg l) p
+                                    else if is_sub o p then rgreet b w (lg l) else [])).
+  { intros o. unfold ReplayTreeFacts.lx. rewrite Hops, xview_snoc. reflexivity. }
+  constructor; cbn [sc_st sc_obs sc_k sc_rlog].
+  - rewrite Hlg. exact Hst.
+  - exact Hnd.
+  - exact Hdom.
+  - intros o Hm. destruct (Hnone o Hm) as (Hm0 & Hsub & Hi & Hp).
+    destruct (sinv_none_l _ _ _ _ o I Hm0) as (H1 & H2 & _ & _).
+    rewrite Hops, subbed_snoc, H1, Hsub, Hview. auto.
+  - intros o os' Hm. rewrite Hview, Hx, Hops, subbed_snoc, Hlg.
+    destruct (Hsome o os' Hm) as [[os [Hm0 [X' (E & Hok & Hp)]]]|[Hm0 [Hsub [X' (E & Hok & Hp)]]]].
+    + destruct (sinv_some_l _ _ _ _ o os I Hm0) as [H1 _]. rewrite H1. split; [reflexivity|].
+      exists X'. auto.
+    + destruct (sinv_none_l _ _ _ _ o I Hm0) as (H1 & _ & _ & _). rewrite H1, Hsub. split; [reflexivity|].
+      unfold ReplayTreeFacts.lx. rewrite (xview_unsubbed b w o _ _ H1). exists X'. auto.
+  - exact Hclean.
+  - rewrite Hlg. exact Hnp.
+Qed.
+
+(* the continuation keeps its pending deliveries and terminals *)
+Definition ksame (k k' : list (@sinstr A)) : Prop :=
+  forall o, sinflight o k' = sinflight o k /\ spend o k' = spend o k.
+
+Lemma ksame_refl k : ksame k k.
+Proof. intros o. split; reflexivity. Qed.
+
+Lemma ksame_drain_if top k : ksame k (drain_if sync top k).
+Proof. unfold drain_if. destruct (inl sync top); [|apply ksame_refl]. intros o. split; reflexivity. Qed.
+
+(* an operation that changes neither entitlements nor queues, only (possibly) state s and table entries
+   in ways the per-observer clause tolerates *)
+Lemma sinv_op_simple top p s m k l s' (m' : @romap A) k' extra :
+  SInv (SCfg s m (SIOp top p :: k) l) ->
+  (extra = [] \/ exists e, extra = [RERaised e]) ->
+  ksame k k' -> sclean k' ->
+  st_agree s' (rg_step (lg l) p) -> rnote (lg l) p = [] ->
+  (forall o, m o = None -> is_sub o p = false) ->
+  NoDup (r_observers s') -> (forall o, In o (r_observers s') -> In o (r_observers s)) ->
+  (forall o, m' o = None <-> m o = None) ->
+  (forall o os os', m o = Some os -> m' o = Some os' ->
+     forall X', obs_ok (rg_live (lg l)) (r_observers s) (lview o l) (sinflight o k) os o X' ->
+                pend_ok os (spend o k) ->
+                obs_ok (rg_live (rg_step (lg l) p)) (r_observers s') (lview o l) (sinflight o k) os' o X' /\
+                pend_ok os' (spend o k)) ->
+  (rg_live (rg_step (lg l) p) = true -> rg_live (lg l) = true) ->
+  SInv (SCfg s' m' k' (extra ++ REOp p :: l)).
+Proof.
+  intros I Hex Hk Hclean Hst Hn Hsubf Hnd Hsub Hdomeq Hobs Hlive.
+  apply (sinv_op_generic top p s m k l s' m' k' extra I Hex Hst Hnd).
+  - intros o Hi. intros E. apply Hdomeq in E. exact (sinv_dom _ I o (Hsub o Hi) E).
+  - intros o E. apply Hdomeq in E. destruct (sinv_none_l _ _ _ _ o I E) as (_ & _ & Hi & Hp).
+    cbn [sinflight spend] in Hi, Hp. destruct (Hk o) as [K1 K2]. rewrite K1, K2. auto.
+  - intros o os' Hm'. left. destruct (m o) as [os|] eqn:Hm; [|apply Hdomeq in Hm; congruence].
+    exists os. split; [reflexivity|]. destruct (sinv_some_l _ _ _ _ o os I Hm) as [_ [X' (E & Hok & Hp)]].
+    cbn [sinflight spend] in E, Hok, Hp. destruct (Hk o) as [K1 K2]. rewrite K1, K2, Hn, app_nil_r.
+    exists X'. split; [exact E|]. exact (Hobs o os os' Hm Hm' X' Hok Hp).
+  - exact Hclean.
+  - intros El o. destruct (Hk o) as [_ K2]. rewrite K2.
+    pose proof (sinv_nopend _ I (Hlive El) o) as Hp. cbn [sc_k spend] in Hp. exact Hp.
+Qed.
+
+Lemma pend_ok_ext (os os' : @rostate A) pd :
+  (ra_stopped os' = false -> ra_stopped os = false) ->
+  (so_stopped (r_so os) = false -> so_stopped (r_so os') = false) ->
+  pend_ok os pd -> pend_ok os' pd.
+Proof. intros Ha Hs [H1 H2]. split; [exact H1|]. auto. Qed.
+
+Lemma pend_ok_stopped (os : @rostate A) pd : (length pd <= 1)%nat -> ra_stopped os = true -> pend_ok os pd.
+Proof. intros H Hs. split; [exact H|]. intros _ E. congruence. Qed.
+
+Lemma sinv_op_noop top p s m k l extra :
+  SInv (SCfg s m (SIOp top p :: k) l) ->
+  (extra = [] \/ exists e, extra = [RERaised e]) ->
+  rg_step (lg l) p = lg l -> rnote (lg l) p = [] ->
+  (forall o, m o = None -> is_sub o p = false) ->
+  SInv (SCfg s m k (extra ++ REOp p :: l)).
+Proof.
+  intros I Hex Hg Hn Hs.
+  apply (sinv_op_simple top p s m k l s m k extra I Hex (ksame_refl k) (sclean_tail _ _ (sinv_clean _ I))).
+  - rewrite Hg. exact (sinv_st_l _ _ _ _ I).
+  - exact Hn.
+  - exact Hs.
+  - exact (sinv_nodup _ I).
+  - tauto.
+  - tauto.
+  - intros o os os' Hm Hm' X' Hok Hp. rewrite Hm in Hm'. injection Hm' as <-. rewrite Hg. auto.
+  - now rewrite Hg.
+Qed.
+
+Lemma sinv_unsub top o s m k l :
+  SInv (SCfg s m (SIOp top (RUnsub o) :: k) l) -> SInv (sstep_op sync react top (RUnsub o) s m k l).
+Proof.
+  intros I. unfold sstep_op.
+  assert (Hnoop : SInv (SCfg s m k ([] ++ REOp (RUnsub o) :: l))).
+  { apply (sinv_op_noop top); [exact I|now left|reflexivity|apply rnote_unsub|reflexivity]. }
+  destruct (m o) as [os|] eqn:Hm; [|exact Hnoop]. destruct (r_handle os); [|exact Hnoop].
+  destruct (rado_dispose_spec s os o) as (Hs & Hcore & Hobs).
+  destruct (rado_dispose s os o) as [s' os']. cbn [fst snd] in *.
+  change (REOp (RUnsub o) :: l) with ([] ++ REOp (RUnsub o) :: l).
+  assert (Hsub : forall x, In x (r_observers s') -> In x (r_observers s)).
+  { intros x. destruct Hobs as [->| ->]; [tauto|apply (In_remove1_weak react)]. }
+  apply (sinv_op_simple top (RUnsub o) s m k l s' _ k [] I); [now left|apply ksame_refl|
+    exact (sclean_tail _ _ (sinv_clean _ I))| | | | | | | |].
+  - cbn [rg_step]. exact (st_agree_same b w s s' _ Hcore (sinv_st_l _ _ _ _ I)).
+  - apply rnote_unsub.
+  - reflexivity.
+  - destruct Hobs as [->| ->]; [exact (sinv_nodup _ I)|apply NoDup_remove1; exact (sinv_nodup _ I)].
+  - exact Hsub.
+  - intros o2. unfold rupd. destruct (Nat.eqb o2 o) eqn:E; [|tauto].
+    apply Nat.eqb_eq in E. subst. split; congruence.
+  - intros o2 os2 os2'. unfold rupd. destruct (Nat.eqb o2 o) eqn:E.
+    + apply Nat.eqb_eq in E. subst o2. intros Hm2 [= <-] X' Hok Hp. split.
+      * eapply (obs_ok_stop react); [exact Hs|exact Hok].
+      * apply pend_ok_stopped; [exact (proj1 Hp)|exact Hs].
+    + apply Nat.eqb_neq in E. intros Hm2 Hm2' X' Hok Hp. rewrite Hm2 in Hm2'. injection Hm2' as <-.
+      split; [|exact Hp]. eapply (obs_ok_weaken react); [|exact Hok]. cbn [rg_step]. intros El. split; [exact El|].
+      intros Hin. destruct Hobs as [->| ->]; [exact Hin|].
+      apply (In_remove1 o _ o2 (sinv_nodup _ I)). split; assumption.
+  - cbn [rg_step]. tauto.
+Qed.
+
+Lemma sinv_dispose top s m k l :
+  SInv (SCfg s m (SIOp top RDispose :: k) l) -> SInv (sstep_op sync react top RDispose s m k l).
+Proof.
+  intros I. unfold sstep_op. change (REOp RDispose :: l) with ([] ++ REOp (@RDispose A) :: l).
+  pose proof (sinv_st_l _ _ _ _ I) as (Hb & Hw & Hc & _ & _).
+  apply (sinv_op_simple top RDispose s m k l _ m k [] I); [now left|apply ksame_refl|
+    exact (sclean_tail _ _ (sinv_clean _ I))| | | | | | | |].
+  - cbn [rg_step]. unfold ReplayTreeFacts.st_agree. cbn. split; [exact Hb|]. split; [exact Hw|]. split; [exact Hc|].
+    split; [reflexivity|]. intros Hx. congruence.
+  - apply rnote_dispose.
+  - reflexivity.
+  - cbn. constructor.
+  - cbn. intros o [].
+  - tauto.
+  - intros o os os' Hm Hm' X' Hok Hp. rewrite Hm in Hm'. injection Hm' as <-. split; [|exact Hp].
+    eapply (obs_ok_weaken react); [|exact Hok]. cbn. discriminate.
+  - cbn. discriminate.
+Qed.
+
+Lemma sinv_advance top d s m k l :
+  SInv (SCfg s m (SIOp top (RAdvance d) :: k) l) -> SInv (sstep_op sync react top (RAdvance d) s m k l).
+Proof.
+  intros I. unfold sstep_op. destruct (d <? 0) eqn:Ed.
+  - change (RERaised out_of_range_exn :: REOp (RAdvance d) :: l)
+      with ([RERaised out_of_range_exn] ++ REOp (@RAdvance A d) :: l).
+    apply (sinv_op_noop top); [exact I|right; eauto|cbn; now rewrite Ed|apply rnote_advance|reflexivity].
+  - change (REOp (RAdvance d) :: l) with ([] ++ REOp (@RAdvance A d) :: l).
+    pose proof (sinv_st_l _ _ _ _ I) as (Hb & Hw & Hc & Hstat & Hq).
+    assert (Hlive : rg_live (rg_step (lg l) (RAdvance d)) = rg_live (lg l)) by (cbn [rg_step]; now rewrite Ed).
+    apply Z.ltb_ge in Ed.
+    apply (sinv_op_simple top (RAdvance d) s m k l _ m k [] I); [now left|apply ksame_refl|
+      exact (sclean_tail _ _ (sinv_clean _ I))| | | | | | | |].
+    + cbn [rg_step]. replace (d <? 0) with false by (symmetry; now apply Z.ltb_ge).
+      unfold ReplayTreeFacts.st_agree. cbn. split; [exact Hb|]. split; [exact Hw|]. split; [now rewrite Hc|].
+      split; [exact Hstat|]. intros H. apply (qinv_advance b w (r_clock s)); [now apply Hq|lia].
+    + apply rnote_advance.
+    + reflexivity.
+    + exact (sinv_nodup _ I).
+    + cbn. tauto.
+    + tauto.
+    + intros o os os' Hm Hm' X' Hok Hp. rewrite Hm in Hm'. injection Hm' as <-. rewrite Hlive. auto.
+    + now rewrite Hlive.
+Qed.
+
+Lemma sinv_emit_dead top p s m k l :
+  SInv (SCfg s m (SIOp top p :: k) l) ->
+  (match p with RNext _ | RErr _ | RDone => True | _ => False end) ->
+  (r_disposed s = true \/ r_stopped s = true) ->
+  SInv (sstep_op sync react top p s m k l).
+Proof.
+  intros I Hp Hdead. pose proof (sinv_st_l _ _ _ _ I) as Hst.
+  assert (Hl : rg_live (lg l) = false).
+  { destruct (r_disposed s) eqn:Hd.
+    - unfold rg_live. now rewrite (status_disposed b w _ _ Hst Hd).
+    - destruct Hdead as [|Hs]; [discriminate|]. exact (proj1 (status_not_live_stopped b w _ _ Hst Hd Hs)). }
+  assert (Hno : forall extra, (extra = [] \/ exists e, extra = [@RERaised A e]) ->
+                SInv (SCfg s m k (extra ++ REOp p :: l))).
+  { intros extra Hex. apply (sinv_op_noop top); [exact I|exact Hex|now apply rg_step_dead|now apply rnote_dead|].
+    intros o _. destruct p; try contradiction; reflexivity. }
+  unfold sstep_op. destruct p; try contradiction.
+  - destruct (r_disposed s); [apply (Hno [RERaised disposed_exn]); right; eauto|].
+    destruct Hdead as [|Hs]; [discriminate|]. rewrite Hs. apply (Hno []). now left.
+  - destruct (r_disposed s); [apply (Hno [RERaised disposed_exn]); right; eauto|].
+    destruct Hdead as [|Hs]; [discriminate|]. rewrite Hs. apply (Hno []). now left.
+  - destruct (r_disposed s); [apply (Hno [RERaised disposed_exn]); right; eauto|].
+    destruct Hdead as [|Hs]; [discriminate|]. rewrite Hs. apply (Hno []). now left.
+Qed.
+
+Lemma inl_top top : inl sync top = true -> top = true.
+Proof. unfold inl. destruct sync, top; cbn; congruence. Qed.
+
+Lemma sclean_drain_handle top p o k :
+  sclean (SIOp top p :: k) -> sclean (drain_if sync top (SIHandle o :: k)).
+Proof.
+  intros Hc. unfold drain_if. destruct (inl sync top) eqn:E.
+  - apply inl_top in E. subst top. pose proof (sclean_top _ _ Hc eq_refl) as Hn.
+    split; [intros _ o2; exact (Hn o2)|]. split; [discriminate|exact (sclean_tail _ _ Hc)].
+  - split; [discriminate|exact (sclean_tail _ _ Hc)].
+Qed.
+
+Lemma sinv_sub_fresh top o s m k l :
+  SInv (SCfg s m (SIOp top (RSub o) :: k) l) -> m o = None -> r_disposed s = false ->
+  SInv (sstep_op sync react top (RSub o) s m k l).
+Proof.
+  intros I Hm Hd. unfold sstep_op. rewrite Hm, Hd.
+  pose proof (sinv_st_l _ _ _ _ I) as Hst. destruct Hst as (Hb & Hw & Hc & Hstat & Hq).
+  assert (Hnd : rg_status (lg l) <> Disposed).
+  { intros E. rewrite E in Hstat. congruence. }
+  specialize (Hq Hnd).
+  set (s1 := trim s). set (s2 := with_observers (r_observers s1 ++ [o]) s1).
+  assert (Hq1 : r_queue s1 = retained b w (rg_clock (lg l)) (rg_all (lg l))).
+  { unfold s1, trim. cbn [r_queue with_queue]. rewrite Hb, Hw, Hc.
+    rewrite Hc in Hq. apply (qinv_replay b w _ _ _ _ Hq). lia. }
+  set (so1 := fold_left (fun so it => so_on (Next (snd it)) so) (r_queue s2) fresh_so).
+  destruct (fold_so_on_nexts (r_queue s2) fresh_so eq_refl) as [F1 F2]. fold so1 in F1, F2. cbn [fresh_so so_queue app] in F1.
+  set (so2 := match r_exception s2 with
+              | Some e => so_on (Err e) so1
+              | None => if r_stopped s2 then so_on Done so1 else so1 end).
+  assert (Hso2 : so_queue so2 = rgreet b w (lg l)).
+  { unfold so2, rgreet, replayed. change (r_exception s2) with (r_exception s). change (r_stopped s2) with (r_stopped s).
+    change (r_queue s2) with (r_queue s1) in F1. rewrite Hq1 in F1.
+    destruct (rg_status (lg l)) as [|t|]; [| |congruence].
+    - destruct Hstat as (S1&S2&S3). rewrite S3, S1. exact F1.
+    - destruct t as [x|e|]; [contradiction| |]; destruct Hstat as (S1&S2&S3); rewrite S3.
+      + destruct (so_on_queue (Err e) so1 F2) as [Q _]. now rewrite Q, F1.
+      + rewrite S1. destruct (so_on_queue Done so1 F2) as [Q _]. now rewrite Q, F1. }
+  assert (Hst2 : rg_live (lg l) = true -> so_stopped so2 = false).
+  { unfold rg_live, so2. change (r_exception s2) with (r_exception s). change (r_stopped s2) with (r_stopped s).
+    destruct (rg_status (lg l)); try discriminate. destruct Hstat as (S1&S2&S3). rewrite S3, S1. intros _. exact F2. }
+  pose proof (ensure_active_core o s2 so2) as Hcore. pose proof (ensure_active_so o s2 so2) as [Hq3 Hs3].
+  destruct (ensure_active o s2 so2) as [s3 so3]. cbn [fst snd] in *.
+  destruct Hcore as [Hobs3 Hcore3].
+  assert (Hobs : r_observers s3 = r_observers s ++ [o]) by (rewrite Hobs3; reflexivity).
+  destruct (sinv_none_l _ _ _ _ o I Hm) as (_ & Hv & Hi & Hpd). cbn [sinflight spend] in Hi, Hpd.
+  assert (Hgen : forall hd k', ksame k k' -> sclean k' ->
+            SInv (SCfg s3 (rupd m o (ROState false false true hd 0 so3)) k' ([] ++ REOp (RSub o) :: l))).
+  { intros hd k' Hk Hclean.
+    apply (sinv_op_generic top (RSub o) s m k l s3 _ k' [] I); [now left| | | | | |exact Hclean|].
+    - cbn [rg_step]. apply (st_agree_same b w s2 s3 _ Hcore3).
+      unfold ReplayTreeFacts.st_agree, s2, s1, trim. cbn. rewrite Hb, Hw.
+      split; [reflexivity|]. split; [reflexivity|]. split; [exact Hc|]. split; [exact Hstat|].
+      intros _. apply qinv_trim. exact Hq.
+    - rewrite Hobs. apply NoDup_app_single; [exact (sinv_nodup _ I)|].
+      intros Hin. exact (sinv_dom _ I o Hin Hm).
+    - intros o2. rewrite Hobs. intros Hin. unfold rupd. destruct (Nat.eqb o2 o) eqn:E; [discriminate|].
+      apply in_app_or in Hin. destruct Hin as [Hin|[<-|[]]]; [exact (sinv_dom _ I o2 Hin)|].
+      rewrite Nat.eqb_refl in E. discriminate.
+    - intros o2. unfold rupd. destruct (Nat.eqb o2 o) eqn:E; [discriminate|]. intros H2.
+      destruct (sinv_none_l _ _ _ _ o2 I H2) as (_ & _ & Hi2 & Hp2). cbn [sinflight spend] in Hi2, Hp2.
+      destruct (Hk o2) as [K1 K2]. rewrite K1, K2. split; [exact H2|]. split; [|auto].
+      cbn [is_sub]. now rewrite Nat.eqb_sym.
+    - intros o2 os'. destruct (Hk o2) as [K1 K2]. rewrite K1, K2. unfold rupd. destruct (Nat.eqb o2 o) eqn:E.
+      + apply Nat.eqb_eq in E. subst o2. intros [= <-]. right. split; [exact Hm|]. split; [cbn; apply Nat.eqb_refl|].
+        exists (rgreet b w (lg l)). rewrite Hpd, app_nil_r, Hv, Hi. split; [reflexivity|]. split.
+        * unfold obs_ok. cbn [ra_stopped r_so app rg_step]. rewrite Hq3, Hso2. split; [reflexivity|].
+          intros El. split; [rewrite Hobs; apply in_or_app; right; now left|]. rewrite Hs3. now apply Hst2.
+        * split; [cbn; lia|]. intros H. congruence.
+      + intros H2. left. exists os'. split; [exact H2|]. rewrite rnote_sub, app_nil_r.
+        destruct (sinv_some_l _ _ _ _ o2 os' I H2) as [_ [X' (EX & Hok & Hp)]]. cbn [sinflight spend] in EX, Hok, Hp.
+        exists X'. split; [exact EX|]. split; [|exact Hp].
+        eapply (obs_ok_weaken react); [|exact Hok]. cbn [rg_step]. intros El. split; [exact El|].
+        rewrite Hobs. intros Hin. apply in_or_app. now left.
+    - cbn [rg_step]. intros El o2. destruct (Hk o2) as [_ K2]. rewrite K2.
+      pose proof (sinv_nopend _ I El o2) as Hp. cbn [sc_k spend] in Hp. exact Hp. }
+  destruct (inl sync top) eqn:Ei.
+  - apply (Hgen false (SIDrain :: SIHandle o :: k)); [intros o2; split; reflexivity|].
+    pose proof (sclean_drain_handle top (RSub o) o k (sinv_clean _ I)) as Hc2.
+    unfold drain_if in Hc2. rewrite Ei in Hc2. exact Hc2.
+  - apply (Hgen true k); [apply ksame_refl|exact (sclean_tail _ _ (sinv_clean _ I))].
+Qed.
+
+Lemma sinv_sub_disposed top o s m k l :
+  SInv (SCfg s m (SIOp top (RSub o) :: k) l) -> m o = None -> r_disposed s = true ->
+  SInv (sstep_op sync react top (RSub o) s m k l).
+Proof.
+  intros I Hm Hd. unfold sstep_op. rewrite Hm, Hd.
+  pose proof (sinv_st_l _ _ _ _ I) as Hst. pose proof (status_disposed b w _ _ Hst Hd) as Hg.
+  destruct (sinv_none_l _ _ _ _ o I Hm) as (Hsb & Hv & Hi & Hpd). cbn [sinflight spend] in Hi, Hpd.
+  assert (Hk : ksame k (map (SIOp false) (react o 0) ++ drain_if sync top (SIHandle o :: k))).
+  { intros o2. rewrite sinflight_app, spend_app, sinflight_ops, spend_ops. cbn [app].
+    unfold drain_if. destruct (inl sync top); split; reflexivity. }
+  assert (Hlg : lg (REGot o (Err disposed_exn) :: REOp (RSub o) :: l) = lg l).
+  { unfold lg. rewrite lops_got, lops_op, rg_run_snoc. reflexivity. }
+  constructor; cbn [sc_st sc_obs sc_k sc_rlog].
+  - rewrite Hlg. exact Hst.
+  - exact (sinv_nodup _ I).
+  - intros o2 Hin. unfold rupd. destruct (Nat.eqb o2 o); [discriminate|]. exact (sinv_dom _ I o2 Hin).
+  - intros o2. unfold rupd. destruct (Nat.eqb o2 o) eqn:E; [discriminate|]. intros H2.
+    destruct (sinv_none_l _ _ _ _ o2 I H2) as (H1 & H3 & H4 & H5). cbn [sinflight spend] in H4, H5.
+    destruct (Hk o2) as [K1 K2]. rewrite K1, K2.
+    rewrite lops_got, lops_op, subbed_snoc, H1, lview_got, lview_op, H3. cbn [is_sub].
+    rewrite (Nat.eqb_sym o o2), E. auto.
+  - intros o2 os'. destruct (Hk o2) as [K1 K2]. rewrite K1, K2, Hlg.
+    unfold ReplayTreeFacts.lx. rewrite lops_got, lops_op, subbed_snoc, lview_got, lview_op, xview_snoc.
+    cbn [orb is_sub]. fold (lg l). fold (lx l o2).
+    unfold rupd. destruct (Nat.eqb o2 o) eqn:E.
+    + apply Nat.eqb_eq in E. subst o2. intros [= <-]. rewrite Hsb, Nat.eqb_refl. split; [reflexivity|].
+      exists [Err disposed_exn]. rewrite Hpd, app_nil_r. unfold ReplayTreeFacts.lx. rewrite (xview_unsubbed b w o _ _ Hsb).
+      unfold rgreet. rewrite Hg. split; [reflexivity|]. split.
+      * unfold obs_ok. cbn [ra_stopped rcalled fresh_rostate orb]. rewrite Hv. apply prefix_refl.
+      * apply pend_ok_stopped; [cbn; lia|reflexivity].
+    + intros H2. destruct (sinv_some_l _ _ _ _ o2 os' I H2) as [H1 [X' (EX & Hok & Hp)]].
+      cbn [sinflight spend] in EX, Hok, Hp. rewrite H1. cbn [orb]. split; [reflexivity|].
+      rewrite rnote_sub, !app_nil_r. rewrite (Nat.eqb_sym o o2), E, app_nil_r. exists X'. auto.
+  - apply sclean_push.
+    + intros o2. apply sinflight_ops.
+    + exact (sclean_drain_handle top (RSub o) o k (sinv_clean _ I)).
+    + intros [i [Hin Ht]]. apply in_map_iff in Hin. destruct Hin as [x [<- _]]. discriminate.
+  - rewrite Hlg. intros El. unfold rg_live in El. rewrite Hg in El. discriminate.
+Qed.
+
+Lemma sinv_sub top o s m k l :
+  SInv (SCfg s m (SIOp top (RSub o) :: k) l) -> SInv (sstep_op sync react top (RSub o) s m k l).
+Proof.
+  intros I. destruct (m o) as [os|] eqn:Hm.
+  - unfold sstep_op. rewrite Hm.
+    change (REOp (RSub o) :: l) with ([] ++ REOp (RSub o) :: l).
+    apply (sinv_op_noop top); [exact I|now left|reflexivity|apply rnote_sub|].
+    intros o2 H2. cbn [is_sub]. destruct (Nat.eqb o o2) eqn:E; [|reflexivity].
+    apply Nat.eqb_eq in E. subst. congruence.
+  - destruct (r_disposed s) eqn:Hd; [now apply sinv_sub_disposed|now apply sinv_sub_fresh].
+Qed.
+
+Lemma sclean_push_top top p (pre k : list (@sinstr A)) :
+  sclean (SIOp top p :: k) -> (forall o, sinflight o pre = []) ->
+  (forall i, In i pre -> is_top i = top) -> sclean (pre ++ k).
+Proof.
+  intros Hc Hn Ht. apply sclean_push; [exact Hn|exact (sclean_tail _ _ Hc)|].
+  intros [i [Hin Hi]]. rewrite (Ht i Hin) in Hi. subst top. exact (sclean_top _ _ Hc eq_refl).
+Qed.
+
+Lemma pend_ok_nil (os : @rostate A) : pend_ok os [].
+Proof. split; [cbn; lia|]. intros H. congruence. Qed.
+
+Lemma sinv_next_live top v s m k l :
+  SInv (SCfg s m (SIOp top (RNext v) :: k) l) -> r_disposed s = false -> r_stopped s = false ->
+  SInv (sstep_op sync react top (RNext v) s m k l).
+Proof.
+  intros I Hd Hs. unfold sstep_op. rewrite Hd, Hs.
+  pose proof (sinv_st_l _ _ _ _ I) as Hst. pose proof (status_live b w _ _ Hst Hd Hs) as Hg.
+  pose proof (live_status _ Hg) as Hl.
+  destruct Hst as (Hb & Hw & Hc & Hstat & Hq). rewrite Hg in Hstat. specialize (Hq ltac:(congruence)).
+  set (s1 := trim (with_queue (r_queue s ++ [(r_clock s, v)]) s)).
+  assert (Hdom : forall o, In o (r_observers s) -> m o <> None) by exact (sinv_dom _ I).
+  destruct (so_each_spec (fun _ s so => (s, so_on (Next v) so)) (fun so so' => so' = so_on (Next v) so)
+              (fun _ s _ => same_core_refl s) (fun _ _ _ => eq_refl)
+              (r_observers s) s1 m (sinv_nodup _ I) Hdom) as (A1 & A2 & A3).
+  destruct (so_each (fun _ s so => (s, so_on (Next v) so)) (r_observers s) s1 m) as [s2 m2]. cbn [fst snd] in *.
+  destruct A1 as [Hobs Hcore].
+  assert (Hnp : forall o, spend o k = []).
+  { intros o. pose proof (sinv_nopend _ I Hl o) as Hp. cbn [sc_k spend] in Hp. exact Hp. }
+  assert (Hk : ksame k (map (SIEnsure top) (r_observers s) ++ k)).
+  { intros o. rewrite sinflight_app, spend_app, sinflight_ensures, spend_ensures. split; reflexivity. }
+  assert (Hlive' : rg_live (rg_step (lg l) (RNext v)) = true) by (cbn [rg_step]; rewrite Hl; reflexivity).
+  change (REOp (RNext v) :: l) with ([] ++ REOp (RNext v) :: l).
+  apply (sinv_op_generic top (RNext v) s m k l s2 m2 _ [] I); [now left| | | | | | |].
+  - cbn [rg_step]. rewrite Hl. apply (st_agree_same b w s1 s2 _ Hcore).
+    unfold ReplayTreeFacts.st_agree, s1, trim. cbn. rewrite Hb, Hw.
+    split; [reflexivity|]. split; [reflexivity|]. split; [exact Hc|]. split; [exact Hstat|].
+    intros _. apply qinv_trim. rewrite <- Hc. apply qinv_append. exact Hq.
+  - rewrite Hobs. exact (sinv_nodup _ I).
+  - rewrite Hobs. cbn. intros o Hi. destruct (m o) as [os|] eqn:E; [|exfalso; exact (Hdom o Hi E)].
+    destruct (A3 o os Hi E) as [so' [-> _]]. discriminate.
+  - intros o Hm2. destruct (in_dec Nat.eq_dec o (r_observers s)) as [Hi|Hni].
+    + destruct (m o) as [os|] eqn:E; [|exfalso; exact (Hdom o Hi E)].
+      destruct (A3 o os Hi E) as [so' [E2 _]]. congruence.
+    + rewrite (A2 o Hni) in Hm2. destruct (sinv_none_l _ _ _ _ o I Hm2) as (_ & _ & Hi2 & Hp2).
+      cbn [sinflight spend] in Hi2, Hp2. destruct (Hk o) as [K1 K2]. rewrite K1, K2. auto.
+  - intros o os2 Hm2. left. destruct (Hk o) as [K1 K2]. rewrite K1, K2, (Hnp o).
+    assert (Hrn : rnote (lg l) (RNext v) = [Next v]) by (unfold rnote; now rewrite Hl). rewrite Hrn.
+    assert (Hold : forall os, m o = Some os ->
+              obs_ok true (r_observers s) (lview o l) (sinflight o k) os o (lx l o)).
+    { intros os Hm. destruct (sinv_some_l _ _ _ _ o os I Hm) as [_ [X' (EX & Hok & _)]].
+      cbn [sinflight spend] in EX, Hok. rewrite (Hnp o), app_nil_r in EX. rewrite EX, <- Hl. exact Hok. }
+    destruct (in_dec Nat.eq_dec o (r_observers s)) as [Hi|Hni].
+    + destruct (m o) as [os|] eqn:Hm; [|exfalso; exact (Hdom o Hi Hm)].
+      destruct (A3 o os Hi Hm) as [so' [E2 ->]]. rewrite E2 in Hm2. injection Hm2 as <-.
+      exists os. split; [reflexivity|]. exists (lx l o ++ [Next v]). split; [now rewrite app_nil_r|]. split; [|apply pend_ok_nil].
+      apply (obs_ok_emit _ (r_observers s) (r_observers s2) _ _ os _ o _ (Next v) (Hold os eq_refl));
+        cbn [set_so ra_stopped r_so].
+      * reflexivity.
+      * intros _. split; reflexivity.
+      * intros _. split; [reflexivity|]. rewrite Hobs. cbn. tauto.
+    + rewrite (A2 o Hni) in Hm2. exists os2. split; [exact Hm2|]. exists (lx l o ++ [Next v]).
+      split; [now rewrite app_nil_r|]. split; [|apply pend_ok_nil].
+      apply (obs_ok_emit _ (r_observers s) (r_observers s2) _ _ os2 os2 o _ (Next v) (Hold os2 Hm2)).
+      * reflexivity.
+      * intros Hi. contradiction.
+      * intros _. split; [reflexivity|]. rewrite Hobs. cbn. tauto.
+  - apply (sclean_push_top top (RNext v)); [exact (sinv_clean _ I)|intros o; apply sinflight_ensures|].
+    intros i Hin. apply in_map_iff in Hin. destruct Hin as [x [<- _]]. reflexivity.
+  - intros _ o. destruct (Hk o) as [_ K2]. rewrite K2. apply Hnp.
+Qed.
+
+Lemma sinv_final_live top p (t : ev A) s m k l :
+  SInv (SCfg s m (SIOp top p :: k) l) -> r_disposed s = false -> r_stopped s = false ->
+  ((exists e, p = RErr e /\ t = Err e) \/ (p = RDone /\ t = Done)) ->
+  SInv (sstep_op sync react top p s m k l).
+Proof.
+  intros I Hd Hs Hp.
+  pose proof (sinv_st_l _ _ _ _ I) as Hst. pose proof (status_live b w _ _ Hst Hd Hs) as Hg.
+  pose proof (live_status _ Hg) as Hl.
+  destruct Hst as (Hb & Hw & Hc & Hstat & Hq). rewrite Hg in Hstat. specialize (Hq ltac:(congruence)).
+  destruct Hstat as (_ & _ & Hex).
+  assert (Hdom : forall o, In o (r_observers s) -> m o <> None) by exact (sinv_dom _ I).
+  set (s1 := match t with
+             | Err e => trim (with_exception (Some e) (with_observers [] (with_stopped true s)))
+             | _ => trim (with_observers [] (with_stopped true s)) end).
+  set (k' := map (fun o => SIOnEnsure top o t) (r_observers s) ++ k).
+  assert (Hstep : sstep_op sync react top p s m k l = SCfg s1 m k' ([] ++ REOp p :: l)).
+  { unfold sstep_op, s1, k'. destruct Hp as [[e [-> ->]]|[-> ->]]; rewrite Hd, Hs; reflexivity. }
+  rewrite Hstep. clear Hstep.
+  assert (Hnp : forall o, spend o k = []).
+  { intros o. pose proof (sinv_nopend _ I Hl o) as Hpp. cbn [sc_k spend] in Hpp. exact Hpp. }
+  assert (Hinf : forall o, sinflight o k' = sinflight o k).
+  { intros o. unfold k'. now rewrite sinflight_app, sinflight_onensures. }
+  assert (Hpd : forall o, spend o k' = if mem o (r_observers s) then [t] else []).
+  { intros o. unfold k'. rewrite spend_app, (spend_onensures o top t (r_observers s) (sinv_nodup _ I)), (Hnp o). apply app_nil_r. }
+  assert (Hobs1 : r_observers s1 = []) by (unfold s1; destruct t; reflexivity).
+  assert (Hdead : rg_live (rg_step (lg l) p) = false).
+  { destruct Hp as [[e [-> _]]|[-> _]]; cbn [rg_step]; rewrite Hl; reflexivity. }
+  assert (Hrn : rnote (lg l) p = [t]).
+  { unfold rnote. rewrite Hl. destruct Hp as [[e [-> ->]]|[-> ->]]; reflexivity. }
+  apply (sinv_op_generic top p s m k l s1 m k' [] I); [now left| | | | | | |].
+  - destruct Hp as [[e [-> ->]]|[-> ->]]; cbn [rg_step]; rewrite Hl;
+      unfold ReplayTreeFacts.st_agree, s1, trim; cbn; rewrite Hb, Hw.
+    + split; [reflexivity|]. split; [reflexivity|]. split; [exact Hc|]. split; [repeat split; assumption|].
+      intros _. apply qinv_trim. exact Hq.
+    + split; [reflexivity|]. split; [reflexivity|]. split; [exact Hc|]. split; [repeat split; assumption|].
+      intros _. apply qinv_trim. exact Hq.
+  - rewrite Hobs1. constructor.
+  - rewrite Hobs1. intros o [].
+  - intros o Hm. destruct (sinv_none_l _ _ _ _ o I Hm) as (_ & _ & Hi2 & _). cbn [sinflight] in Hi2.
+    rewrite Hinf, Hpd. split; [exact Hm|]. split; [destruct Hp as [[e [-> _]]|[-> _]]; reflexivity|].
+    split; [exact Hi2|]. replace (mem o (r_observers s)) with false; [reflexivity|].
+    symmetry. apply mem_false. intros Hin. exact (Hdom o Hin Hm).
+  - intros o os Hm. left. exists os. split; [exact Hm|]. rewrite Hinf, Hpd, Hrn, Hdead.
+    destruct (sinv_some_l _ _ _ _ o os I Hm) as [_ [X' (EX & Hok & _)]].
+    cbn [sinflight spend] in EX, Hok. rewrite (Hnp o), app_nil_r in EX. subst X'. rewrite Hl in Hok.
+    destruct (mem o (r_observers s)) eqn:Em.
+    + exists (lx l o). split; [reflexivity|]. split.
+      * eapply (obs_ok_weaken react); [|exact Hok]. discriminate.
+      * split; [cbn; lia|]. intros _ Hra. unfold obs_ok in Hok. rewrite Hra in Hok.
+        destruct Hok as [_ H2]. exact (proj2 (H2 eq_refl)).
+    + exists (lx l o ++ [t]). split; [now rewrite app_nil_r|]. split; [|apply pend_ok_nil].
+      unfold obs_ok in *. destruct (ra_stopped os); [now apply prefix_app_r|].
+      destruct Hok as [_ H2]. destruct (H2 eq_refl) as [Hin _]. apply mem_In in Hin. congruence.
+  - unfold k'. apply (sclean_push_top top p); [exact (sinv_clean _ I)|intros o; apply sinflight_onensures|].
+    intros i Hin. apply in_map_iff in Hin. destruct Hin as [x [<- _]]. reflexivity.
+  - rewrite Hdead. discriminate.
+Qed.
+
+Theorem sstep_op_inv top p s m k l :
+  SInv (SCfg s m (SIOp top p :: k) l) -> SInv (sstep_op sync react top p s m k l).
+Proof.
+  intros I. destruct p as [o|o|v|e| | |d].
+  - now apply sinv_sub.
+  - now apply sinv_unsub.
+  - destruct (r_disposed s) eqn:Hd; [apply sinv_emit_dead; [exact I|constructor|now left]|].
+    destruct (r_stopped s) eqn:Hs; [apply sinv_emit_dead; [exact I|constructor|now right]|].
+    now apply sinv_next_live.
+  - destruct (r_disposed s) eqn:Hd; [apply sinv_emit_dead; [exact I|constructor|now left]|].
+    destruct (r_stopped s) eqn:Hs; [apply sinv_emit_dead; [exact I|constructor|now right]|].
+    apply (sinv_final_live top (RErr e) (Err e)); try assumption. left. eauto.
+  - destruct (r_disposed s) eqn:Hd; [apply sinv_emit_dead; [exact I|constructor|now left]|].
+    destruct (r_stopped s) eqn:Hs; [apply sinv_emit_dead; [exact I|constructor|now right]|].
+    apply (sinv_final_live top RDone Done); try assumption. right. split; reflexivity.
+  - now apply sinv_dispose.
+  - now apply sinv_advance.
+Qed.
+
 End SchedA.
